@@ -157,7 +157,7 @@ func c12Rules(tier string) []Rule {
 				`+^\(\*scheduling\.Requirement\)\.Operator\(\(scheduling\.Requirements\)\.Get\(\$1, `+ikey+`\)\) == "DoesNotExist"$`),
 		), Note: "a shared key without intersection is an error unless BOTH sides are NotIn / DoesNotExist"},
 		core.Custom{ID: "C12.PROV5", Kind: "PROV", Run: func(w *core.World, id string) []core.Result {
-			rs := core.InstrPresent(w, id, "PROV", inters, `^return phi\(nil\|phi↺\|phi↺\|go\.uber\.org/multierr\.Append\(phi↺, <scheduling\.badKeyError>&local<scheduling\.badKeyError>\)\|phi↺\)$`, 1, "the accumulated errors are returned")
+			rs := core.InstrPresent(w, id, "PROV", inters, `^return phi\(nil\|phi↺\|go\.uber\.org/multierr\.Append\(phi↺, <scheduling\.badKeyError>&local<scheduling\.badKeyError>\)\)$`, 1, "the accumulated errors are returned")
 			rs = append(rs, core.InstrPresent(w, id, "PROV", inters, `^call \(scheduling\.Requirements\)\.intersectKeys\(\$0, \$1\)$`, 1, "shared keys of the two operands")...)
 			return rs
 		}},
@@ -346,7 +346,7 @@ func c12IntersectKeys(w *core.World, id string) []core.Result {
 			}
 		}
 	}
-	out = append(out, dropOK(DOM{ID: id, Fn: ik, Sink: `^call \(apim/util/sets\.Set\[string\]\)\.Insert\(makemap<apim/util/sets\.Set\[string\]>, `, Gates: gates(G(`+^phi\(\$1\|\$0\)\[next\(range\(phi\(\$0\|\$1\)\)\)#1\]#1$`, `+^\$[01]\[next\(range\(\$[01]\)\)#1\]#1$`))}.Check(w))...)
+	out = append(out, dropOK(DOM{ID: id, Fn: ik, Sink: `^call \(apim/util/sets\.Set\[string\]\)\.Insert\(makemap<apim/util/sets\.Set\[string\]>, `, Gates: gates(G(`+^phi\(\$0\|\$1\)\[next\(range\(phi\(\$0\|\$1\)\)\)#1\]#1$`, `+^\$[01]\[next\(range\(\$[01]\)\)#1\]#1$`))}.Check(w))...)
 	out = append(out, dropOK(core.InstrPresent(w, id, "SYM", ik, `^return makemap<apim/util/sets\.Set\[string\]>$`, 1, ""))...)
 	out = append(out, dropOK(core.InstrPresent(w, id, "SYM", ik, `^store &local<\[1\]string>\[0\] = next\(range\(.*\)\)#1$`, 1, ""))...)
 	if len(out) == 0 {
